@@ -44,6 +44,7 @@ func init() {
 			fr.p.sched.bound = int(asInt64(a[0]))
 			return nil
 		},
+		nd + "SymbolicRand": func(fr *frame, a []value) value { fr.p.symRand = true; return nil },
 		nd + "MapRaces":  func(fr *frame, a []value) value { fr.p.sched.mapRaces = true; return nil },
 		nd + "MapOrder":  func(fr *frame, a []value) value { fr.p.mapOrder = true; return nil },
 		nd + "Quiesce":   func(fr *frame, a []value) value { fr.quiesce(); return nil },
